@@ -2,7 +2,7 @@
    witnesses of the refuted variants. *)
 From Coq Require Import String.
 From Coq Require Import List NArith Bool Arith Lia.
-From VF Require Import Matcher.Model Matcher.ParserFacts Matcher.EvalFacts C18.Entry.
+From VF Require Import Matcher.Model Matcher.ParserFacts Matcher.EvalFacts Matcher.PrintLex Matcher.PrintParse C18.Entry.
 Import ListNotations.
 
 Definition table_clean (t : table) : bool :=
@@ -12,13 +12,23 @@ Definition table_clean (t : table) : bool :=
    - the model variant parses the string like the documented grammar (no bare keyword pattern),
    - the compile oracle raises nothing but re.error / OverflowError on the atoms of the string,
    - no key path runs through a non-container, or the lookup absorbs that (documented semantics),
-   - the intended tree, if given, is what the documented grammar yields (for strings printed from
-     a tree in a legal layout this is theorem C18_parse_print) *)
+   - the intended tree, if given, is the tree of which the string is a legal layout, and its atoms
+     compile *)
 Definition valid (c : case) : Prop :=
   parse (c_var c) (table_compile (c_table c)) (c_str c) = reference c /\
   no_raise (reference c) /\
   (lookup_escapes (c_var c) = false \/ table_clean (c_table c) = true) /\
-  match c_expected c with Some e => reference c = Ok e | None => True end.
+  match c_expected c with
+  | Some e => exists t w0 w3, ok 0 t /\ is_ws w0 /\ is_ws w3 /\ c_str c = w0 ++ print t ++ w3 /\ erase t = e /\
+                              (forall a, In a (catoms t) -> table_compile (c_table c) a = COk)
+  | None => True
+  end.
+
+Lemma valid_expected c e : valid c -> c_expected c = Some e -> reference c = Ok e.
+Proof.
+  intros (_ & _ & _ & H) E. rewrite E in H. destruct H as (t & w0 & w3 & Hok & Hw0 & Hw3 & Hs & He & Hc).
+  unfold reference. rewrite Hs, <- He. now apply parse_print.
+Qed.
 
 Lemma str_eqb_refl a : str_eqb a a = true.
 Proof. induction a as [|c a IH]; cbn; [reflexivity|]. now rewrite N.eqb_refl, IH. Qed.
@@ -62,7 +72,8 @@ Qed.
 
 Lemma holds_model c : valid c -> holds c (run_model c) = [].
 Proof.
-  intros (Hp & Hr & Hc & He). rewrite run_model_eq, Hp. unfold holds, wanted. cbn [fst snd].
+  intros Hv0. pose proof (fun e => valid_expected c e Hv0) as He. destruct Hv0 as (Hp & Hr & Hc & _).
+  rewrite run_model_eq, Hp. unfold holds, wanted. cbn [fst snd].
   rewrite vals_eqb_refl.
   destruct (reference c) as [e|x] eqn:Eref.
   - cbn [outcome].
@@ -71,10 +82,11 @@ Proof.
     { apply map_ext. intros i. apply eval_spec. intros a _. unfold atom_clean.
       destruct Hc as [Hc|Hc]; [now left|right]. now apply table_clean_spec. }
     rewrite Hev, vals_eqb_refl.
-    destruct (c_expected c) as [e0|]; [|reflexivity].
-    injection He as <-. now rewrite expr_eqb_refl.
+    destruct (c_expected c) as [e0|] eqn:Ee; [|reflexivity].
+    specialize (He e0 eq_refl). injection He as <-. now rewrite expr_eqb_refl.
   - destruct x as [|t|].
-    + cbn [outcome]. rewrite vals_eqb_refl. destruct (c_expected c); [discriminate|reflexivity].
+    + cbn [outcome]. rewrite vals_eqb_refl. destruct (c_expected c) as [e0|] eqn:Ee; [|reflexivity].
+      specialize (He e0 eq_refl). discriminate.
     + destruct Hr.
     + exfalso. unfold reference in Eref. now apply parse_noof in Eref.
 Qed.
@@ -112,5 +124,20 @@ Definition example_case : case :=
      c_table := [ (ex_a, (COk, [tv_of true false; tv_of false false]));
                   (ex_b, (COk, [tv_of true false; tv_of false false]));
                   (ex_k, (COk, [tv_of false false; tv_of true false])) ] |}.
+Definition short_unq : astyle := {| st_short := true; st_slash := false; st_key := Unq; st_pat := Unq |}.
+Definition qual_unq : astyle := {| st_short := false; st_slash := false; st_key := Unq; st_pat := Unq |}.
+Definition example_cst : cst :=
+  CBin KAnd (CNot [SP] (CAtom ex_a short_unq)) [SP] [SP]
+       (CParen [] (CBin KOr (CAtom ex_b short_unq) [SP] [SP] (CAtom ex_k qual_unq)) []).
 Lemma example_valid : valid example_case.
-Proof. repeat split; try (vm_compute; reflexivity). right. vm_compute. reflexivity. Qed.
+Proof.
+  split; [vm_compute; reflexivity|]. split; [vm_compute; exact I|]. split; [right; vm_compute; reflexivity|].
+  cbn [c_expected example_case]. exists example_cst, [], [].
+  split.
+  { unfold example_cst. cbn [ok lev]. unfold atom_ok, unquoted_ok. cbn.
+    repeat match goal with |- _ /\ _ => split end;
+      first [reflexivity | discriminate | lia | exact I | left; discriminate | right; reflexivity | intros _; reflexivity
+            | unfold unquoted_ok; cbn; repeat split; first [reflexivity | discriminate] ]. }
+  split; [reflexivity|]. split; [reflexivity|]. split; [vm_compute; reflexivity|]. split; [reflexivity|].
+  intros a Ha. cbn in Ha. destruct Ha as [<-|[<-|[<-|[]]]]; vm_compute; reflexivity.
+Qed.
